@@ -195,12 +195,13 @@ fn gen_payload(lang: &str, op: &str, k: usize, r: &mut Rng) -> String {
     match (lang, op) {
         (_, "proj") if k >= 1 => format!("{}", r.below(6)),
         (_, "flag2") if k >= 1 => format!("{}", r.below(6)),
-        (_, "ch") => ["a", "Z", "7", "é"][r.below(4)].to_string(),
+        // payloads are handed over as syntax elements, not as text: any value of the payload type is a legal input (blank characters, symbols with blanks around or inside)
+        (_, "ch") => ["a", "Z", "7", "é", " ", "\t", "(", "$"][r.below(8)].to_string(),
         (_, "big") | (_, "neg") => ["-5", "0", "123456789012", "-9223372036854775808"][r.below(4)].to_string(),
         (_, "flag") => ["true", "false"][r.below(2)].to_string(),
-        (_, "tag") | (_, "proj") => ["foo", "x1", "bar"][r.below(3)].to_string(),
+        (_, "tag") | (_, "proj") => ["foo", "x1", "bar", " foo", "foo ", "f oo", "", " "][r.below(8)].to_string(),
         (_, "flag2") => ["true", "false"][r.below(2)].to_string(),
-        (_, "#sym") => ["abc", "q", "zz9"][r.below(3)].to_string(),
+        (_, "#sym") => ["abc", "q", "zz9", " abc", "abc ", "a bc"][r.below(6)].to_string(),
         _ => format!("{}", r.below(5)),
     }
 }
